@@ -33,23 +33,43 @@ Definition core (m : wsmode) (t : list rune) : list rune :=
   if space_collapse m then space_re t3 else t3.
 
 
-(* white-space: pre-line -- full statement, not proved: per line (split at LF) the
-   blanks at both ends are removed and inner runs of blanks collapse to one space *)
-Fixpoint split_lf (cur : list rune) (l : list rune) : list (list rune) :=
+(* white-space: pre-line.  The text is cut into lines at the line feeds; blanks
+   (spaces, tabs) next to a line feed are removed -- so every line but the first
+   loses its leading blanks and every line but the last its trailing ones -- and
+   every remaining run of blanks becomes one space; the line feeds stay. *)
+Fixpoint split_lines (l : list rune) : list (list rune) :=
   match l with
-  | [] => [rev cur]
-  | c :: r => if N.eqb c LF then rev cur :: split_lf [] r else split_lf (c :: cur) r
+  | [] => [[]]
+  | c :: r =>
+      if N.eqb c LF then [] :: split_lines r
+      else match split_lines r with
+           | s :: ss => (c :: s) :: ss
+           | [] => [[c]]
+           end
   end.
+
 Fixpoint drop_blanks (l : list rune) : list rune :=
   match l with c :: r => if is_blank c then drop_blanks r else l | [] => [] end.
-Definition trim_blanks_start (l : list rune) := drop_blanks l.
-Definition trim_blanks_end (l : list rune) := rev (drop_blanks (rev l)).
+
+Fixpoint trim_end (l : list rune) : list rune :=
+  match l with
+  | [] => []
+  | c :: r => match trim_end r with
+              | [] => if is_blank c then [] else [c]
+              | r' => c :: r'
+              end
+  end.
+
 Fixpoint join_lf (ls : list (list rune)) : list rune :=
   match ls with [] => [] | [l] => l | l :: r => l ++ LF :: join_lf r end.
+
+(* `after_lf`: the line follows a line feed (it is not the first one) *)
+Fixpoint trimmed_lines (after_lf : bool) (segs : list (list rune)) : list (list rune) :=
+  match segs with
+  | [] => []
+  | [s] => [if after_lf then drop_blanks s else s]
+  | s :: rest => trim_end (if after_lf then drop_blanks s else s) :: trimmed_lines true rest
+  end.
+
 Definition preline_spec (t : list rune) : list rune :=
-  let segs := split_lf [] (norm_lf t) in
-  let n := length segs in
-  join_lf (map (fun il : nat * list rune => let '(i, l) := il in
-                  space_re ((if Nat.ltb 0 i then trim_blanks_start else (fun x => x))
-                            ((if Nat.ltb (S i) n then trim_blanks_end else (fun x => x)) l)))
-               (combine (seq 0%nat n) segs)).
+  join_lf (map space_re (trimmed_lines false (split_lines (norm_lf t)))).
